@@ -24,6 +24,28 @@ import (
 var quiet = slog.New(slog.NewTextHandler(io.Discard, nil))
 
 // ---- building real Go values from the case language ----
+// decorate applies the outermost decoration of [e] to an error value that already exists
+func decorate(e *errT, inner error) error {
+	switch e.kind {
+	case "wrap":
+		esc := func(b []byte) string { return strings.ReplaceAll(string(b), "%", "%%") }
+		return fmt.Errorf(esc(e.a)+"%w"+esc(e.b), inner)
+	case "code":
+		return psqlerr.WithCode(inner, codes.Code(e.a))
+	case "sev":
+		return psqlerr.WithSeverity(inner, psqlerr.Severity(e.a))
+	case "hint":
+		return psqlerr.WithHint(inner, string(e.a))
+	case "detail":
+		return psqlerr.WithDetail(inner, string(e.a))
+	case "source":
+		return psqlerr.WithSource(inner, string(e.a), int32(e.line), string(e.b))
+	case "constraint":
+		return psqlerr.WithConstraintName(inner, string(e.a))
+	}
+	panic("bad decoration " + e.kind)
+}
+
 func mkErr(e *errT) error {
 	switch e.kind {
 	case "base":
